@@ -289,6 +289,7 @@ func (x *Ctx) KnownPlan(s tfsdk.Schema, in string, mode int) (types.Object, erro
 type maskOpt struct {
 	pNull, pUnknown int // percent per node
 	elemUnknown     bool
+	elemNull        bool // also null list / map elements (C05; plans of C08 never have them)
 	// keepInjected: leave attributes that do not stem from fields alone.
 }
 
@@ -368,7 +369,7 @@ func (x *Ctx) mask(ms *spec.Msg, obj types.Object, in, path string, o maskOpt) t
 		}
 		if a.Msg == nil {
 			if o.elemUnknown {
-				out.Attrs[a.Attr] = x.maskElems(out.Attrs[a.Attr], in, p)
+				out.Attrs[a.Attr] = x.maskElems(out.Attrs[a.Attr], in, p, o.elemNull)
 			}
 			continue
 		}
@@ -385,6 +386,8 @@ func (x *Ctx) mask(ms *spec.Msg, obj types.Object, in, path string, o maskOpt) t
 					eo := e.(types.Object)
 					if o.elemUnknown && x.prf.Int(100, in, ep, "elem-unknown") < 4 {
 						el[i] = setFlags(eo, false, true)
+					} else if o.elemNull && x.prf.Int(100, in, ep, "elem-null") < 8 {
+						el[i] = setFlags(eo, true, false)
 					} else {
 						el[i] = x.mask(a.Msg, eo, in, ep, o)
 					}
@@ -400,6 +403,8 @@ func (x *Ctx) mask(ms *spec.Msg, obj types.Object, in, path string, o maskOpt) t
 					eo := e.(types.Object)
 					if o.elemUnknown && x.prf.Int(100, in, ep, "elem-unknown") < 4 {
 						el[k] = setFlags(eo, false, true)
+					} else if o.elemNull && x.prf.Int(100, in, ep, "elem-null") < 8 {
+						el[k] = setFlags(eo, true, false)
 					} else {
 						el[k] = x.mask(a.Msg, eo, in, ep, o)
 					}
@@ -419,7 +424,7 @@ func (x *Ctx) mask(ms *spec.Msg, obj types.Object, in, path string, o maskOpt) t
 }
 
 // maskElems turns a few elements of a primitive list / map unknown.
-func (x *Ctx) maskElems(v attr.Value, in, p string) attr.Value {
+func (x *Ctx) maskElems(v attr.Value, in, p string, nulls bool) attr.Value {
 	switch t := v.(type) {
 	case types.List:
 		if t.Null || t.Unknown {
@@ -430,6 +435,8 @@ func (x *Ctx) maskElems(v attr.Value, in, p string) attr.Value {
 			el[i] = e
 			if x.prf.Int(100, in, fmt.Sprintf("%s[%d]", p, i), "elem-unknown") < 4 {
 				el[i] = setFlags(e, false, true)
+			} else if nulls && x.prf.Int(100, in, fmt.Sprintf("%s[%d]", p, i), "elem-null") < 8 {
+				el[i] = setFlags(e, true, false)
 			}
 		}
 		t.Elems = el
@@ -443,6 +450,8 @@ func (x *Ctx) maskElems(v attr.Value, in, p string) attr.Value {
 			el[k] = e
 			if x.prf.Int(100, in, fmt.Sprintf("%s{%s}", p, k), "elem-unknown") < 4 {
 				el[k] = setFlags(e, false, true)
+			} else if nulls && x.prf.Int(100, in, fmt.Sprintf("%s{%s}", p, k), "elem-null") < 8 {
+				el[k] = setFlags(e, true, false)
 			}
 		}
 		t.Elems = el
@@ -467,11 +476,24 @@ func redecode(s tfsdk.Schema, obj types.Object) (types.Object, error) {
 
 // Plan returns (payload carrier, clean conforming object) for input id in.
 func (x *Ctx) Plan(s tfsdk.Schema, in string, mode int) (carrier, clean types.Object, err error) {
+	return x.planWith(s, in, mode, false)
+}
+
+// PlanNullElems is Plan with null list / map elements allowed (any conforming object, C05).
+func (x *Ctx) PlanNullElems(s tfsdk.Schema, in string, mode int) (carrier, clean types.Object, err error) {
+	return x.planWith(s, in, mode, true)
+}
+
+func (x *Ctx) planWith(s tfsdk.Schema, in string, mode int, nullElems bool) (carrier, clean types.Object, err error) {
 	known, err := x.KnownPlan(s, in, mode)
 	if err != nil {
 		return
 	}
-	carrier = x.mask(x.Root, known, in, "", maskFor(mode))
+	mo := maskFor(mode)
+	if nullElems && mo.elemUnknown {
+		mo.elemNull = true
+	}
+	carrier = x.mask(x.Root, known, in, "", mo)
 	clean, err = redecode(s, carrier)
 	return
 }
